@@ -109,6 +109,8 @@ def typed_case(draw, rec=None, allow_omit=True):
     for i in range(draw(st.sampled_from([0, 0, 0, 1, 2]))):
         extras.append([f"zz_extra_{i}", {"node": draw(extra_node)}])
     case = {"kind": "typed", "lib": rec["lib"], "cls": rec["cls"], "args": args, "extras": extras, "omit": omit}
+    if rec["request"] and draw(st.integers(0, 5)) == 0:
+        case["idsrc"] = "collide"
     if rec["app"] == "caller":
         case["hdr_app"] = draw(st.sampled_from(APP_IDS))
     return case
@@ -166,6 +168,35 @@ def _expected_app(rec, case):
     return app
 
 
+class _colliding_ids:
+    """While a typed request is built, the random source first repeats identifiers already handed out in this process (a request
+    created just before holds them), then serves fresh ones: the class must still build a complete, decodable request."""
+    def __init__(self, on):
+        self.on = on
+
+    def __enter__(self):
+        if not self.on:
+            return self
+        import bromelia.base as base
+        from .c15 import FakeOs
+        self.base = base
+        self.saved_os = base.os
+        R = base.DiameterRequest
+        self.saved_reg = (list(R.hop_by_hop_identifiers), list(R.end_to_end_identifiers))
+        base.os = FakeOs([0x0A0B0C01, 0x0A0B0C02, 0x0A0B0C01, 0x0A0B0C02, 0x0A0B0C01, 0x0A0B0C02])
+        R(command_code=1, application_id=0)
+        return self
+
+    def __exit__(self, *a):
+        if not self.on:
+            return False
+        R = self.base.DiameterRequest
+        self.base.os = self.saved_os
+        R.hop_by_hop_identifiers[:] = self.saved_reg[0]
+        R.end_to_end_identifiers[:] = self.saved_reg[1]
+        return False
+
+
 def check_typed(case):
     """-> (status, why, [V]) ; sigs starting with 'enc/' are pure encoding clauses (shared with C01)."""
     errors = common.lib_errors()
@@ -179,7 +210,8 @@ def check_typed(case):
     except (Exception,) + errors as e:
         return "discard", f"argument construction refused: {type(e).__name__}", []
     try:
-        msg = cls(**kwargs)
+        with _colliding_ids(case.get("idsrc") == "collide"):
+            msg = cls(**kwargs)
     except errors as e:
         if case["omit"]:
             return "ok", None, []
@@ -309,6 +341,8 @@ def _features(case, rec):
         f.add("omit-mandatory")
     if case["extras"]:
         f.add("extra-kwargs")
+    if case.get("idsrc") == "collide":
+        f.add("identifier-collision-on-first-draw")
     for k, v in case["args"]:
         if tab[k]["kind"] == "optional":
             f.add("optional-arg")
@@ -379,7 +413,7 @@ def main(ctx):
                                              "inventory/" + ",".join(sorted(f"{a}.{b}" for a, b in found ^ ref)), "")])
     for path, rec in common.load_replays(PID):
         col.record(rec["case"], run_case(rec["case"]), nontrivial=True, classes=["replay"])
-    ctx.required_classes = ["optional-arg", "untabled-arg", "extra-kwargs", "omit-mandatory", "session-id-from-identity"]
+    ctx.required_classes = ["optional-arg", "untabled-arg", "extra-kwargs", "omit-mandatory", "session-id-from-identity", "identifier-collision-on-first-draw"]
     ctx.assumptions = ["ref/commands.json: command code / Application-ID / request bit written from RFC 6733, RFC 4006, RFC 4072 and 3GPP TS "
                        "29.272/29.273/29.212/29.214/32.299; argument tables are a fixed snapshot of the pinned tree",
                        "base-protocol ASA/RAA: Application-ID is caller-supplied (documented header assignment applied, non-zero ids only)"]
